@@ -313,8 +313,9 @@ class Ctx:
         cov.update(self.cov)
         if extra_cov:
             cov.update(extra_cov)
-        for key, n in sorted(self.known_hits.items()):
-            print('KNOWN-FINDING: property=%s %s (%d case(s) this run) — %s' % (self.pid, key, n, self.findings['known'][self.pid][key]))
+        for key, text in sorted(self.findings['known'].get(self.pid, {}).items()):
+            n = self.known_hits.get(key, 0)
+            print('KNOWN-FINDING: property=%s %s (%s) — %s' % (self.pid, key, '%d case(s) this run' % n if n else 'listed; no case of this class among this run\'s cases', text))
         lines = []
         self.violations.sort(key=lambda pw: os.path.getsize(pw[0]))
         for path, what in self.violations[:3]:
